@@ -199,6 +199,10 @@ class IpAnonymizer(_BaseIpAnonymizer):
 
         if preserve_prefixes is None:
             preserve_prefixes = list(self.DEFAULT_PRESERVED_PREFIXES)
+        else:
+            # Work on a copy: the preserved addresses are appended below and the
+            # caller's list must not change
+            preserve_prefixes = list(preserve_prefixes)
 
         self._preserve_addresses = []
         if preserve_addresses is not None:
